@@ -16,6 +16,11 @@ def KeyWf3 (ttl inner : Nat) (t : TtlMap) : Prop :=
 def KeyWf2 (ttl : Nat) (t : TtlMap) : Prop :=
   ∀ e, t.m kMain = some e → ∃ st id, e = ⟨pack2 st id, some (st + ttl)⟩ ∧ st ≤ t.now
 
+/-- `cached3` only looks at the clock and at the entry under the main key -/
+theorem cached3_congr {t t' : TtlMap} (h1 : t'.now = t.now) (h2 : t'.m kMain = t.m kMain) : cached3 t' = cached3 t := by
+  unfold cached3 TtlMap.find
+  rw [h1, h2]
+
 theorem wf3_init (ttl inner : Nat) : KeyWf3 ttl inner TtlMap.init := by
   intro e h; simp [TtlMap.init] at h
 
